@@ -1,0 +1,21 @@
+//go:build !verif
+
+// Package verifhook provides observation points for the runtime-verification
+// harness. Without the "verif" build tag every function is an empty stub that
+// the compiler inlines away.
+package verifhook
+
+import "time"
+
+// At marks a named point in the pipeline for the seed/item id.
+func At(point, id string) {}
+
+// AtKV marks a named point with an id, a URL (or other text) and a number.
+func AtKV(point, id, url string, n int) {}
+
+// AtItem marks a named point and hands the object the caller currently owns to the handler.
+func AtItem(point string, item any) {}
+
+// RL reports a rate-limiter bucket snapshot; it is called with the bucket's mutex held.
+func RL(kind string, bucket any, now time.Time, tokens, refillRate, idealRate, capacity float64, penaltyUntil time.Time, failureCount, status int) {
+}
